@@ -250,7 +250,7 @@ func main() {
 	// ---- random streams, forked in a fixed order (the phases below overlap in
 	// time, but every r.Op / r.Fail call is made from this goroutine, in a
 	// fixed order, so the output is deterministic for a given seed)
-	nGen := 8
+	nGen := 6
 	if r.Thorough {
 		nGen = 60
 	}
